@@ -50,7 +50,7 @@ def power_basis(coeffs):
     return out
 
 
-COORD_FAMILIES = ["int", "grid", "dyadic", "float", "big", "collinear", "coincident", "arch", "elevated", "retracted", "teardrop", "axischord", "tiny", "evenspaced"]
+COORD_FAMILIES = ["int", "grid", "dyadic", "float", "big", "collinear", "coincident", "arch", "elevated", "retracted", "teardrop", "axischord", "tiny", "evenspaced", "offset"]
 
 
 def rand_coord(rng, fam):
@@ -84,6 +84,12 @@ def rand_seg_pts(rng, order, fam):
         # care (absolute tolerances in the code would)
         k = 2.0 ** -rng.choice([17, 20, 24, 30])
         pts = [(x * k, y * k) for x, y in pts]
+    elif fam == "offset":
+        # a small figure (1e-3 .. 1 units across, dyadic) far from the origin (2^20): every property that is translation-invariant must not
+        # care; tolerances relative to the coordinates' magnitude instead of the figure's size would
+        k = 2.0 ** -rng.choice([0, 4, 8, 12])
+        o = 2.0 ** 20 * rng.choice([1.0, -1.0, 3.0])
+        pts = [(o + float(rng.randint(-9, 9)) * k, o + float(rng.randint(-9, 9)) * k) for _ in range(order)]
     elif fam == "evenspaced" and order == 4:
         # three consecutive control points exactly evenly spaced in one coordinate: the derivative's linear coefficient vanishes exactly
         # (b = 0, roots +-sqrt(-c/a)), with an interior extremum in that coordinate
